@@ -193,6 +193,15 @@ def gen_geo(ctx, i):
         import numpy as np
         for name, pts in ws:
             geo.add_well(mg.well(name, [np.array(p) for p in pts]))
+    if desc.get('wells') and geo.num_columns > 2 and rng.random() < 0.35:
+        # a sub-model: reduced to a few columns, which removes the wells that lie outside them (possibly all of them)
+        keep = sorted(rng.sample([c.name for c in geo.columnlist], rng.randint(1, max(1, geo.num_columns // 3))))
+        geo.reduce([geo.column[n] for n in keep])
+        geo.delete_orphan_wells()
+        desc['reduced_to'] = keep
+        desc['wells_left'] = [w.name for w in geo.welllist]
+        ctx.count('geometries_reduced_with_wells')
+        ctx.see('wells_after_reduce', 'none' if not geo.welllist else ('all' if len(geo.welllist) == len(desc['wells']) else 'some'))
     if rng.random() < 0.25 or zero:
         import numpy as np
         cs = {}
